@@ -1055,6 +1055,10 @@ func TestCx06TLSDir(t *testing.T) {
 	os.Setenv("CASKETPATH", filepath.Join(dir, "assets"))
 	r := &runner{res: res, fx: fx, drift: map[string]int{}}
 
+	if hx.Replay() != "" && !replayIsMine() {
+		res.AddExtra("replay", "the replay file belongs to another driver of C06: nothing to do here")
+		return
+	}
 	if rp, ok := hx.LoadReplay[tcase](t); ok {
 		r.offers = rp.Offers
 		res.Count("replay")
@@ -1276,6 +1280,23 @@ func TestCx06TLSDir(t *testing.T) {
 			res.Infra = fmt.Sprintf("selftest: %d corrupted expectations, only %d noticed", selftested, selfNoticed)
 		}
 	}
+}
+
+// replayIsMine tells whether the replay file was written for a mismatch of this driver (./check hands
+// the file to every driver of the property).
+func replayIsMine() bool {
+	b, err := os.ReadFile(hx.Replay())
+	if err != nil {
+		return true // let LoadReplay report it
+	}
+	var w struct {
+		Test string `json:"test"`
+		Key  string `json:"key"`
+	}
+	if json.Unmarshal(b, &w) != nil {
+		return true
+	}
+	return w.Test == "TestCx06TLSDir" || strings.HasPrefix(w.Key, "C06/tlsdirective/")
 }
 
 // corrupt changes one expectation of a case that is judged (selftest).
